@@ -17,7 +17,9 @@ THEOREMS = ['C04_max_pattern', 'C04_complement_bits', 'C04_eval_pattern_den', 'C
             'C04_dont_care_table_is_cone_function', 'C04_equal_patterns_equal_functions',
             'C04_complementary_patterns_negated_functions', 'C04_ConeEval_functional', 'C04_cone_eval_sound',
             'C04_ConeEval_Eval', 'C04_check_step_sound', 'C04_check_step_map_sound_Eval',
-            'C04_care_set_substitution_partial', 'C04_accepted_step_preserves_outputs', 'C04_merge_substitution', 'C04_care_covers_sound',
+            'C04_care_set_substitution', 'C04_care_set_substitution_outputs', 'C04_check_implies_equivalence',
+            'C04_example_care_set_replacement', 'C04_care_set_substitution_truth_table',
+            'C04_example_care_set_replacement_truth_table', 'C04_validator_substitution', 'C04_accepted_step_preserves_outputs', 'C04_merge_substitution', 'C04_care_covers_sound',
             'C04_cex_surplus_operand', 'C04_example_ternary_and', 'C04_cex_missing_node', 'C04_example_cone', 'C04_example_simulation', 'C04_example_step_accepted', 'C04_example_step_rejected',
             'C04_example_care_set_step', 'C04_example_merge']
 PARTIAL = {
@@ -28,19 +30,8 @@ PARTIAL = {
         '"same inputs / outputs / truth table, not more gates, no FailedValidationError, no internal error" are checked '
         'end to end by the oracle on every run (the root causes found this way are repaired by fixes/D30..D39; their '
         'failing inputs are kept as a fixed corpus). What is proved: '
-        'the pattern simulation for all widths and the soundness of a validator for single replacement steps',
-    'C04_care_set_substitution_partial':
-        'validator form of the care-set substitution theorem of DESIGN 7/C04: stated for the circuits before and '
-        'after a step that check_subst accepts (frame conditions are checked executably on the two states), not as a '
-        'theorem about the function replace_subcircuit; labels of leaves and outputs are the same before and after '
-        '(what _rename_subcircuit_gates arranges); silent about the replaced internal gates (their labels are reused; '
-        'a gate of the cone whose label, type and operands happen to be the same before and after but which depends on '
-        'a replaced internal gate counts as replaced); '
-        'the care-set hypothesis is discharged per step by care_covers (C04_care_covers_sound) or by comparing all '
-        '2^k leaf vectors. Frame conditions checked on the two states: the new circuit is acyclic (a checked '
-        'operands-first order), the leaves survive and are not cone outputs, no gate outside the replaced internal gates '
-        'other than a cone output reads one of them, same interface, only cone gates touched. The steps of the "all outputs '
-        'trivial" branch have their own validator (check_merge, C04_merge_substitution), also in validator form',
+        'the pattern simulation for all widths, the care-set substitution theorem for the function replace_subcircuit '
+        '(one replacement step) and the soundness of a validator for single replacement steps on recorded states',
 }
 LEVEL_CATEGORY = 'translation_validation'
 LEVEL_TEXT = ('translation validation with a verified validator, plus proof of the pattern simulation. Proved in Coq for '
@@ -48,7 +39,14 @@ LEVEL_TEXT = ('translation validation with a verified validator, plus proof of t
               'translator t5, the simulation loops hand-written and compared with _get_subcircuits, _eval_dont_cares, '
               'evaluate_truth_table_with_dont_cares on generated cones): for every cut size the patterns are the truth '
               'tables of the cone nodes over the cut, the table given to the synthesiser is the cone function on the '
-              'care rows, equal / complementary patterns mean equal / negated functions; check_step / check_subst are '
+              'care rows, equal / complementary patterns mean equal / negated functions; the care-set substitution theorem '
+              'for the function replace_subcircuit (C04_care_set_substitution: whenever replace_subcircuit c sub imap omap '
+              'returns c\' and the executable cone check accepts host cone vs. replacement on all 2^k leaf vectors or on a '
+              'care set that care_covers accepts, every surviving gate, in particular every circuit output, has in c\' the '
+              'value it had in c under every Boolean primary-input vector, and - when the replacement has accepted arities and '
+              'no primary input is removed - evaluate on every Boolean vector and get_truth_table return equal results '
+              '(C04_care_set_substitution_truth_table); obtained by combining the validator facts with '
+              'the semantic theorem of replace_subcircuit of C19); on recorded states check_step / check_subst are '
               'sound (an accepted step preserves the value of every surviving gate and of every circuit output under '
               'every assignment whose leaf vector was compared); check_merge is sound for the all-outputs-trivial branch. '
               'On every run each Circuit.replace_subcircuit call made by minimize_subcircuits is recorded, replayed through '
@@ -66,7 +64,11 @@ LEVEL_NOTE = ('Coq kernel + vm_compute; translator t5 (Python ast -> Gallina, N 
               'family is inside the property\'s quantifier, each step is validated rather than assumed). Hypotheses of the '
               'theorems: NoDup leaves, cone_okb (supported types, operand count that eval_pattern reads completely, operands '
               'before users), operands < 2^(2^n); '
-              'for the substitution theorem: acceptance by check_subst and a compared leaf vector under the assignment')
+              'for the substitution theorem about replace_subcircuit: Inv (C02) of host and replacement, arity_ok of the host '
+              '(needed: C19_replace_subcircuit_arity_needed), acceptance by check_step_map on the care set and care_covers; '
+              'for the validator form: acceptance by check_subst and a compared leaf vector under the assignment. The '
+              'harness validates recorded steps with check_subst on the states before / after (the replay shows that the '
+              'model function yields exactly the state after)')
 TECHNIQUE = ('proof of the pattern simulation and of a step validator + translation validation of every replacement step '
              '+ end-to-end oracle')
 TRUSTED = ['hypotheses of C04_eval_pattern_den / C04_patterns_are_truth_tables, each witnessed necessary by a proved '
